@@ -661,10 +661,10 @@ theorem inv_stepReader (cfg : Cfg) (hcfg : cfg.sizeUnderLock = true) {s : Sys} (
           rw [hm] at hres ⊢
           rw [hres]
           exact hiter
-        exact { notCrashed := by simp [upd_same, hpc], notSized := by simp [upd_same, hpc],
-                holds := fun _ => hmux, allocd := by simp [upd_same, hpc],
+        exact { notCrashed := by simp [upd_same], notSized := by simp [upd_same],
+                holds := fun _ => hmux, allocd := by simp [upd_same],
                 ranging := by simpa [upd_same] using hrng,
-                copied := by simp [upd_same, hpc], outs := by simpa [upd_same] using hk.outs }
+                copied := by simp [upd_same], outs := by simpa [upd_same] using hk.outs }
       · refine others_frame (s := s) (k := k) hr ?_ ?_ ?_ hj
         · intro j' hj'; exact upd_other _ _ hj'
         · rfl
@@ -725,6 +725,68 @@ theorem inv_run (cfg : Cfg) (hcfg : cfg.sizeUnderLock = true) (sched : List Nat)
     cases t with
     | zero => exact inv_stepWriter cfg hinv
     | succ k => exact inv_stepReader cfg hcfg hinv k
+
+/-! ### the writer alone: the sequential alert log -/
+
+/-- what one complete writer round (lock, check, append, unlock) does to the log -/
+def appendOne (mx : Nat) (alerts : List Nat) (a : Nat) : List Nat :=
+  (if alerts.length > mx then [] else alerts) ++ [a]
+
+theorem writer_round (cfg : Cfg) (s : Sys) (a : Nat) (rest : List Nat)
+    (hpc : s.wpc = WPc.idle) (hm : s.mux = none) (hp : s.pending = a :: rest) :
+    let s' := run cfg s [0, 0, 0, 0]
+    s'.alerts = appendOne cfg.maxAlerts s.alerts a ∧ s'.pending = rest ∧ s'.wpc = WPc.idle ∧ s'.mux = none := by
+  simp only [run, List.foldl_cons, List.foldl_nil, stepT]
+  have h1 : stepWriter cfg s = { s with mux := some 0, wpc := .locked } := by
+    unfold stepWriter; simp [hpc, hp, hm]
+  rw [h1]
+  by_cases hl : s.alerts.length > cfg.maxAlerts
+  · simp [stepWriter, hl, hp, appendOne]
+  · simp [stepWriter, hl, hp, appendOne]
+
+theorem descFrom_length (hi n : Nat) : (descFrom hi n).length = n := by
+  induction n generalizing hi with
+  | zero => rfl
+  | succ n ih => simp [descFrom, ih]
+
+theorem seq_log (mx k : Nat) :
+    (List.range' 1 k).foldl (appendOne mx) [] = (alertsAfter mx k).reverse := by
+  induction k with
+  | zero => simp [alertsAfter, lenAfter, descFrom]
+  | succ k ih =>
+    rw [List.range'_1_concat, List.foldl_append, ih]
+    simp only [List.foldl_cons, List.foldl_nil, appendOne, alertsAfter, List.length_reverse, descFrom_length, lenAfter]
+    by_cases hl : lenAfter mx k > mx
+    · simp [hl, descFrom]; omega
+    · simp only [hl, if_false]
+      have : 1 + k = k + 1 := by omega
+      rw [this]
+      simp [descFrom]
+
+
+theorem run_append (cfg : Cfg) (s : Sys) (l1 l2 : List Nat) :
+    run cfg s (l1 ++ l2) = run cfg (run cfg s l1) l2 := by
+  simp [run, List.foldl_append]
+
+/-- the writer alone, four steps per alert, produces exactly the sequential log -/
+theorem writer_alone (cfg : Cfg) (pending : List Nat) (s : Sys)
+    (hpc : s.wpc = WPc.idle) (hm : s.mux = none) (hp : s.pending = pending) :
+    let s' := run cfg s (List.replicate (4 * pending.length) 0)
+    s'.alerts = pending.foldl (appendOne cfg.maxAlerts) s.alerts ∧ s'.pending = [] ∧ s'.wpc = WPc.idle ∧ s'.mux = none := by
+  induction pending generalizing s with
+  | nil => simp [run, hpc, hm, hp]
+  | cons a rest ih =>
+    have hsplit : List.replicate (4 * (a :: rest).length) 0 = [0, 0, 0, 0] ++ List.replicate (4 * rest.length) 0 := by
+      simp only [List.length_cons, Nat.mul_add, Nat.mul_one]
+      rw [Nat.add_comm, List.replicate_add]
+      rfl
+    obtain ⟨h1, h2, h3, h4⟩ := writer_round cfg s a rest hpc hm hp
+    obtain ⟨e1, e2, e3, e4⟩ := ih (run cfg s [0, 0, 0, 0]) h3 h4 h2
+    show (run cfg s (List.replicate (4 * (a :: rest).length) 0)).alerts = _ ∧ _
+    rw [hsplit, run_append]
+    refine ⟨?_, e2, e3, e4⟩
+    rw [e1, h1]
+    rfl
 
 end Alerts
 
